@@ -17,11 +17,11 @@ from harness import layerb
 from harness.common import SEED, Check, MachineryError, parse_printed_json, quiet_pydrex, run_tlc, scratch
 
 
-def run_pair(pd, pair, n=8):
+def run_pair(pd, pair, n=8, regime=4):
     outs = []
     for par in (pair["multi"], pair["single"]):
         p = pair["phase"]
-        m = pd.Mineral(phase=p, fabric=0 if p == 0 else 5, regime=4, n_grains=n, seed=3)
+        m = pd.Mineral(phase=p, fabric=0 if p == 0 else 5, regime=regime, n_grains=n, seed=3)
         L = layerb.FLOWS["gen3d"]
         F = np.eye(3)
         for k in range(3):
@@ -68,13 +68,14 @@ def main(tier):
     rng = np.random.default_rng(SEED)
     if quick:
         pairs = [pairs[i] for i in rng.choice(len(pairs), 24, replace=False)]
-    for pair in pairs:
-        do, df = run_pair(pd, pair)
-        chk.count(("pair", json.dumps(pair, sort_keys=True)))
+    for pi, pair in enumerate(pairs):
+        regime = (4, 6)[pi % 2]       # both dislocation-type regimes
+        do, df = run_pair(pd, pair, regime=regime)
+        chk.count(("pair", json.dumps(pair, sort_keys=True), regime))
         chk.maximum("effective_mobility_pair_dO", do)
         chk.maximum("effective_mobility_pair_dF", df)
         if not (do <= 1e-6 and df <= 1e-6):
-            chk.violation(dict(clause="own-phase-fraction-scales-mobility", phase=pair["phase"], asm=str(pair["multi"]["asm"])),
+            chk.violation(dict(clause="own-phase-fraction-scales-mobility", phase=pair["phase"], asm=str(pair["multi"]["asm"]), regime=regime),
                           f"multiphase run differs from single-phase run with M*phi: dO={do:.3g} dF={df:.3g} pair={pair}", pair)
     chk.sample(dict(kind="effective-mobility-pair", pair=pairs[0]))
     # negative control for the pair comparison: a pair with a DIFFERENT effective mobility must differ
